@@ -110,7 +110,12 @@ func (g *gen) callBody(id string, notif bool) item {
 	case w < 48:
 		method, params = "test_nothing", ``
 	case w < 57:
-		n := []int{0, 10, 150, 1500, 20000, 120000}[g.rng.Intn(6)]
+		// sizes chosen against the response limits {120, 2500, 60000}; the big one is rare
+		// (every byte is copied a dozen times on its way, which is expensive under -race)
+		n := []int{0, 10, 150, 1500, 1500, 9000}[g.rng.Intn(6)]
+		if g.rng.Intn(12) == 0 {
+			n = 70000
+		}
 		method, params = "test_large", fmt.Sprintf(`[%d]`, n)
 	case w < 67:
 		it.SleepU = g.rng.Intn(g.maxSleep + 1)
